@@ -791,7 +791,7 @@ BEHAVIOURS = ["honest", "cv-wrong-key"] + ["cv-scheme-" + c for c in ("0403", "0
 # ---------------------------------------------------------------------------------------------------------------
 # one run: real library endpoint (its own thread, vlib/net.py Endpoint) against a scripted peer (its own thread)
 
-def duel(variant, lib_is_client, make_peer, ep_kwargs, hs_timeout=30.0, data=None):
+def duel(variant, lib_is_client, make_peer, ep_kwargs, hs_timeout=30.0, data=None, stray=None):
     """make_peer(sock) -> ScriptedServer / ScriptedClient.  data = (bytes library->peer, bytes peer->library, padding) or None.
     Returns a dict: 'setup' (Endpoint set-up result), 'ret' (tls_do_handshake of the library endpoint, None if it never returned),
     'stalled' (the library endpoint had not returned within hs_timeout; the socket was then closed under it), 'peer' (summary of the
@@ -843,6 +843,19 @@ def duel(variant, lib_is_client, make_peer, ep_kwargs, hs_timeout=30.0, data=Non
                     rr = ep.do("recv", max(len(p2l), 1) + 16, timeout=hs_timeout)
                     dres["p2l"] = rr[0] == "recv" and rr[1] == 1 and rr[2] == p2l
                     dres["p2l_detail"] = (rr[0], rr[1] if len(rr) > 1 else None, len(rr[2]) if len(rr) > 2 else None)
+                    if stray is not None and dres["l2p"] and dres["p2l"]:
+                        # one protected record whose inner type is not application data, then application data; the library reads on
+                        rt, pl, more = stray
+                        peer.w.send(rt, pl, pad)
+                        peer.send_app(more, pad)
+                        b.shutdown(socket.SHUT_WR)          # nothing follows: further reads end at EOF instead of blocking
+                        reads = []
+                        for _ in range(3):
+                            rr = ep.do("recv", len(more) + len(pl) + 64, timeout=hs_timeout)
+                            reads.append((rr[0], rr[1] if len(rr) > 1 else None, rr[2] if len(rr) > 2 else b""))
+                            if rr[0] != "recv":
+                                break
+                        dres["stray"] = reads
                 except Stop as s:
                     dres["stop"] = s.reason + ":" + s.detail
                 out["data"] = dres
